@@ -1,0 +1,61 @@
+"""Verification hooks (inactive unless the environment variable XPM_VERIF=1)
+
+Nothing in this module changes the behaviour of experimaestro unless the guard
+is set: every call site is of the form ``if _verif.ACTIVE and ...``.
+
+- ``thread_hook(name, func, args, kwargs)``: replaces the helper thread started
+  by ``asyncThreadcheck`` (returns the future) -- lets a deterministic harness
+  schedule helper-thread completions
+- ``rawthread_hook(name, target)``: replaces a bare ``threading.Thread(...).start()``
+- ``central_hook(name)``: replaces the scheduler event-loop thread
+- ``ipcom_hook()``: replaces the file system watcher
+- ``tap``: generic observation callback ``tap(kind, payload)``
+- ``emit(event, **fields)``: appends one JSON line to the file named by
+  ``XPM_VERIF_TRACE`` (O_APPEND, one write per event)
+"""
+
+import json
+import os
+import threading
+
+ACTIVE = os.environ.get("XPM_VERIF", "0") == "1"
+
+thread_hook = None
+rawthread_hook = None
+central_hook = None
+ipcom_hook = None
+tap = None
+
+#: Events that must not be emitted (used to show that traces bind)
+DROP = set(filter(None, os.environ.get("XPM_VERIF_DROP", "").split(",")))
+
+_fd = None
+_seq = 0
+_lock = threading.Lock()
+
+
+def emit(event: str, **fields):
+    """Append one event to the trace file (no-op when no file is configured)"""
+    global _fd, _seq
+    if not ACTIVE or event in DROP:
+        return
+    path = os.environ.get("XPM_VERIF_TRACE")
+    if not path:
+        return
+    with _lock:
+        if _fd is None:
+            _fd = os.open(path, os.O_WRONLY | os.O_APPEND | os.O_CREAT, 0o644)
+        _seq += 1
+        record = {"e": event, "pid": os.getpid(), "seq": _seq}
+        record.update(fields)
+        os.write(_fd, (json.dumps(record) + "\n").encode("utf-8"))
+
+
+def _reset_after_fork():
+    global _fd, _seq
+    _fd = None
+    _seq = 0
+
+
+if hasattr(os, "register_at_fork"):
+    os.register_at_fork(after_in_child=_reset_after_fork)
